@@ -135,10 +135,27 @@ Definition lens_ok (p : prob) (s : sol) : bool :=
   (length (so_x s) =? N.to_nat (pr_n p))%nat && (length (so_s s) =? N.to_nat (pr_m p))%nat
   && (length (so_z s) =? N.to_nat (pr_m p))%nat.
 
+(** Tolerances.  The solver's termination test is on the DECOMPOSED problem: residuals at most
+    tol relative to max(1, |b|+|x'|+|s'|) resp. max(1, |q|+|x'|+|z'|), where x' = (x, clique
+    blocks) in the standard form, so |x'| <= max(|x|, 2|s|) (blocks of a PSD sum are bounded by
+    its diagonal, svec scales by sqrt 2).  Mapping back:
+      - s = sum of blocks: the primal residual of a row adds the residuals of the (at most
+        1 + #overlaps) block rows feeding it;
+      - z on a row is taken from ONE clique block (compact: the deepest, overwritten) or averaged
+        (standard), while the data of that row sit with the dual z0 of one block/row; the two are
+        tied only through the dual residuals of the overlap / H columns along a chain of at most
+        #overlaps ties.  Hence |z - z0|_inf <= eps * sc_d with eps = tol (1 + #overlaps), and
+          dual residual  P x + A'z + q   picks up  |A|_1 * eps * sc_d   (|A|_1 = max column abs sum),
+          dual objective -b'z            picks up  |b|_1 * eps * sc_d.
+    [eps] below is that tol (1 + #overlaps); the explicit constants are (1 + |A|_1) and |b_finite|_1. *)
+Definition dsumabs (l : list dy) : dy := fold_left (fun a v => dadd a (dabs v)) l d0.
+Definition norm1_cols (cols : list srow) : dy := fold_left (fun m c => dmax m (dsumabs (map snd c))) cols d0.
+
 Definition kkt_ok (eps : dy) (p : prob) (s : sol) : bool :=
   let x := so_x s in let sv := so_s s in let z := so_z s in let b := pr_b p in
   let bf := mask_rows b b in
   let zf := mask_rows b z in
+  let sf := mask_rows b sv in
   let Ax := mulv (pr_Arows p) x in
   let rp := mask_rows b (vsub (vadd Ax sv) b) in
   let Px := mulv (pr_Prows p) x in
@@ -146,14 +163,18 @@ Definition kkt_ok (eps : dy) (p : prob) (s : sol) : bool :=
   let rd := vadd (vadd Px Atz) (pr_q p) in
   let xPx := ddot x Px in
   let half := D 1 (-1) in
+  let two := D 1 1 in
   let pobj := dadd (dmul half xPx) (ddot (pr_q p) x) in
   let dobj := dsub (dneg (dmul half xPx)) (ddot bf zf) in
-  let sc_p := dadd d1 (dadd (maxabs bf) (dadd (maxabs x) (maxabs (mask_rows b sv)))) in
-  let sc_d := dadd d1 (dadd (maxabs (pr_q p)) (dadd (maxabs x) (maxabs z))) in
+  let sc_p := dadd d1 (dadd (maxabs bf) (dadd (maxabs x) (dmul two (maxabs sf)))) in
+  let sc_d := dadd d1 (dadd (maxabs (pr_q p)) (dadd (dadd (maxabs x) (dmul two (maxabs sf))) (maxabs z))) in
   let sc_g := dadd d1 (dmin (dabs pobj) (dabs dobj)) in
+  let a1 := dadd d1 (norm1_cols (pr_Acols p)) in
+  let b1 := dsumabs bf in
+  let gap_tol := dmul eps (dadd sc_g (dmul b1 sc_d)) in
   dleb (maxabs rp) (dmul eps sc_p)
-  && dleb (maxabs rd) (dmul eps sc_d)
-  && dleb (dabs (dsub pobj dobj)) (dmul eps sc_g)
+  && dleb (maxabs rd) (dmul eps (dmul a1 sc_d))
+  && dleb (dabs (dsub pobj dobj)) gap_tol
   && dleb (dabs (dsub pobj (so_obj s))) (dmul eps sc_g)
   (* dual variables of infinite-bound rows vanish *)
   && dleb (maxabs (map2 (fun bi a => if finite_row bi then d0 else a) b z)) (dmul eps sc_d).
